@@ -187,6 +187,11 @@ def pit_oracle(case):
     p, s = metrics.pit(obs.copy(), ens.copy(), random=case["random"],
                        cst=case["cst"], censor=censor)
     labels = [f"random:{case['random']}", f"obs-ties:{case['tied']}"]
+    np.random.seed(case["seed"])
+    p2, s2 = metrics.pit(obs.tolist(), ens.tolist(), random=case["random"],
+                         cst=case["cst"], censor=censor)
+    if not (np.array_equal(p, p2) and np.array_equal(s, s2)):
+        raise Violation("pit differs between array and list input")
     if p.shape != (n,) or s.shape != (n,):
         raise Violation(f"pit shapes {p.shape} {s.shape}")
     if np.any(p < 0) or np.any(p > 1) or np.any(np.isnan(p)):
